@@ -1,36 +1,43 @@
 """C17 - simpleTAL executes templates according to TAL/TALES semantics.
 
 Design model: spec/TALES + TALCompile + TALVM (one action per opcode) checked against the reference
-semantics spec/TALSem by MC_C17 (invariants WellFormed, Terminates, Completes, Refines), one TLC process
-per family part.  B1: opcode numbers and HTML_FORBIDDEN_ENDTAG are imported from the tree under test into
-the TLC configuration.  B2: exactly the cases TLC explored (written by the model's POSTCONDITION) are
-rendered to template text, compiled by the REAL compiler and expanded by the REAL interpreter under a
-tracing interpreter subclass.  B3: every run is validated by TLC against spec/trace/TraceC17.tla."""
+semantics spec/TALSem by MC_C17 (invariants WellFormed, Terminates, Completes, Refines).
+B1: opcode numbers and HTML_FORBIDDEN_ENDTAG are imported from the tree under test into the TLC cfg.
+B2: exactly the cases TLC explored (written by the model's POSTCONDITION) are rendered to template text,
+    compiled by the REAL compiler and expanded by the REAL interpreter under a tracing interpreter subclass.
+B3: every run is validated by TLC against spec/trace/TraceC17.tla.
+
+The case space is cut into independent PARTS (family group x context x slice of the product); each part
+is a pipeline model-check -> real runs -> trace validation executed in its own worker process (TLC with
+one worker: its string table is a global lock), so memory stays bounded and the parts run side by side."""
 from __future__ import annotations
 
 import hashlib
 import json
 import os
 import random
-from concurrent.futures import ThreadPoolExecutor
+import shutil
 
 from harness import core, tlc
 
 # TLC evaluates the (lazily nested) compile states of larger templates recursively: give its threads room
 if "-Xss" not in os.environ.get("JAVA_TOOL_OPTIONS", ""):
     os.environ["JAVA_TOOL_OPTIONS"] = (os.environ.get("JAVA_TOOL_OPTIONS", "") + " -Xss64m").strip()
+# many TLC processes run side by side (one worker each): keep each JVM small
+os.environ.setdefault("VERIF_TLC_XMX", "3g")
 
 MC_CFG = """SPECIFICATION Spec
 CONSTANTS
 %(consts)s
   Quick = %(quick)s
   Families = {%(fams)s}
-  CtxIds = {%(ctxs)s}
+  CtxIds = {"%(ctx)s"}
   EscLen = %(esclen)d
   NParts = %(nparts)d
   Part = %(part)d
   MaxSteps = 600
-  KnownRepeatOverMapping = %(known)s
+  KnownRepeatOverMapping = %(known_rom)s
+  KnownRawTextEscaped = %(known_rte)s
 %(invs)s
 POSTCONDITION WriteCases
 CHECK_DEADLOCK FALSE
@@ -43,12 +50,12 @@ CONSTRAINT Record
 POSTCONDITION Post
 CHECK_DEADLOCK FALSE
 """
-
-# family groups and the number of TLC processes each group is split over (product families only)
+# family groups and the number of slices each group is split into (product families only)
 TIERS = {
     "quick": dict(parts=[(["expr", "void", "deep", "metalx"], 1), (["one"], 3), (["nest"], 3), (["metal"], 2)], ctxs=["A"]),
-    "thorough": dict(parts=[(["expr", "void", "deep", "metalx"], 1), (["one"], 4), (["nest"], 12), (["metal"], 2)], ctxs=["A", "B"]),
+    "thorough": dict(parts=[(["expr", "void", "deep", "metalx"], 1), (["one"], 6), (["nest"], 24), (["metal"], 3)], ctxs=["A", "B"]),
 }
+OWN_CTX = ("esc", "doc", "py")          # families that bring their own context
 
 
 def procs():
@@ -59,86 +66,50 @@ def known_flag(chk, clause):
     return any((f.get("match") or {}).get("clause") == clause for f in chk.known)
 
 
-def model_check(chk, parts, ctxs, invs, consts_text, esclen=2, timeout=3000, quick=None, module="MC_C17"):
-    """One TLC process (1 worker: TLC's string table is a global lock) per family part, in parallel.
-    -> (cases, contexts, totals)"""
-    known = "TRUE" if known_flag(chk, "RepeatOverMapping") else "FALSE"
-    quick = (chk.tier == "quick") if quick is None else quick
+def _retry(fn, tries=3):
+    """A TLC process that vanishes without an error message (killed from outside: the machine is shared) is
+    machinery, not a verdict: run it again."""
+    for k in range(tries):
+        try:
+            return fn()
+        except tlc.TLCError as e:
+            tail = str(e).split("Starting...")[-1]
+            if k == tries - 1 or "rror" in tail or "timeout" in str(e):
+                raise
+
+
+def make_jobs(parts, ctxs, **common):
     jobs = []
     for fams, nparts in parts:
-        own_ctx = all(f in ("esc", "doc", "py") for f in fams)      # families that bring their own context
-        for cx in (ctxs[:1] if own_ctx else ctxs):
+        for cx in (ctxs[:1] if all(f in OWN_CTX for f in fams) else ctxs):
             for part in range(nparts):
-                jobs.append((fams, cx, nparts, part))
-    jobs.sort(key=lambda j: -j[2])          # the split (big) families first
-
-    def one(job):
-        fams, cx, nparts, part = job
-        cfg = MC_CFG % dict(consts=consts_text, fams=", ".join('"%s"' % f for f in fams), ctxs='"%s"' % cx, esclen=esclen,
-                            nparts=nparts, part=part,
-                            quick="TRUE" if quick else "FALSE", known=known, invs="\n".join("INVARIANT " + x for x in invs))
-        sd = tlc.new_scratch("c17cases")
-        cf = os.path.join(sd, "cases.json")
-        try:
-            res = tlc.check_model(module, module + "_run.cfg", extra_files={module + "_run.cfg": cfg}, workers=1,
-                                  env={"CASES_FILE": cf}, timeout=timeout, coverage=False)
-            data = None
-            if os.path.exists(cf):
-                with open(cf) as fp:
-                    data = json.load(fp)
-            return fams + ["%d/%d" % (part, nparts)], cx, res, data
-        finally:
-            import shutil
-            shutil.rmtree(sd, ignore_errors=True)
-
-    with ThreadPoolExecutor(max_workers=max(1, min(procs(), len(jobs)))) as ex:
-        results = list(ex.map(one, jobs))
-    cases, contexts = [], {}
-    tot = {"distinct": 0, "generated": 0, "cmd": "", "wall": 0.0, "inv": [], "actions": {}}
-    for fams, cx, res, data in results:
-        tot["distinct"] += res["distinct"]
-        tot["generated"] += res["generated"]
-        tot["cmd"] = res["cmd"]
-        tot["wall"] = max(tot["wall"], res["wall_s"])
-        for k, v in (res.get("coverage") or {}).items():
-            name = k.split("@")[0]
-            if name.startswith("Cmd") or name in ("SubReturn", "EndTagResume", "Load"):
-                tot["actions"][name] = tot["actions"].get(name, 0) + v[0]
-        if res["inv_violations"]:
-            tot["inv"].append((fams, cx, res["inv_violations"], res["out"][-3000:]))
-            chk.model_violation("%s[%s/%s]" % (module, "+".join(fams), cx), res["inv_violations"], res["out"][-3000:])
-        elif data is None:
-            raise tlc.TLCError("%s %s wrote no cases:\n%s" % (module, fams, res["out"][-2000:]))
-        if data:
-            cases.extend(data["cases"])
-            contexts.update(data["contexts"])
-    return cases, contexts, tot
+                jobs.append(dict(common, fams=list(fams), ctx=cx, nparts=nparts, part=part))
+    return jobs
 
 
-# ---- spec -> code ----------------------------------------------------------------------------------------------
-_W = {}
-
-
-def _init_worker():
-    from harness import c17_tal
-    c17_tal.st_modules()
-
-
-def _run(job):
-    from harness import c17_tal
-    case, contexts, consts, want_tokens = job
-    return c17_tal.run_case(case, contexts, consts, want_tokens=want_tokens, second=case.get("fam") == "doc")
-
-
-def run_cases(cases, contexts, consts, want_tokens=False):
-    from harness.c17_tal import pool_map
-    used = {c["ctx"]["id"] for c in cases}
-    small = {k: v for k, v in contexts.items() if k in used}
-    jobs = [(c, small, consts, want_tokens) for c in cases]
-    if len(jobs) < 50:
-        _init_worker()
-        return [_run(j) for j in jobs]
-    return pool_map(_run, jobs, _init_worker, procs=procs())
+# ---- one part: model-check -> real runs -> trace validation (runs in a worker process) ----------------------------
+def model_check_part(job):
+    """-> (result of TLC, cases, contexts)"""
+    cfg = MC_CFG % dict(consts=job["consts_text"], fams=", ".join('"%s"' % f for f in job["fams"]), ctx=job["ctx"],
+                        esclen=job.get("esclen", 2), nparts=job["nparts"], part=job["part"],
+                        quick="TRUE" if job["quick"] else "FALSE", known_rom="TRUE" if job["known_rom"] else "FALSE",
+                        known_rte="TRUE" if job["known_rte"] else "FALSE",
+                        invs="\n".join("INVARIANT " + x for x in job["invs"]))
+    module = job["module"]
+    sd = tlc.new_scratch("c17cases")
+    cf = os.path.join(sd, "cases.json")
+    try:
+        res = _retry(lambda: tlc.check_model(module, module + "_run.cfg", extra_files={module + "_run.cfg": cfg}, workers=1,
+                                             env={"CASES_FILE": cf}, timeout=job.get("timeout", 6000), coverage=False))
+        data = {"cases": [], "contexts": {}}
+        if os.path.exists(cf):
+            with open(cf) as fp:
+                data = json.load(fp)
+        elif not res["inv_violations"]:
+            raise tlc.TLCError("%s %s wrote no cases:\n%s" % (module, job["fams"], res["out"][-2000:]))
+        return res, data["cases"], data["contexts"]
+    finally:
+        shutil.rmtree(sd, ignore_errors=True)
 
 
 def case_key(run):
@@ -148,59 +119,147 @@ def case_key(run):
                                   int(i["py"]), run["text"])
 
 
-def validate(module, spec, runs, contexts, consts_text, chunk=1500, timeout=3000):
-    """B3: TLC validates the recorded traces, several TLC processes side by side."""
+def validate(module, spec, runs, contexts, consts_text, chunk=1500, timeout=6000):
+    """B3: TLC validates the recorded traces (chunk after chunk)."""
     traces = [{"id": n, "init": r["init"], "events": r["events"], "final": r["final"]} for n, r in enumerate(runs)]
     cfg = TRACE_CFG % dict(spec=spec, consts=consts_text)
     extra = {module + "_run.cfg": cfg, "c17_ctx.json": json.dumps(contexts)}
-    chunks = [(off, traces[off:off + chunk]) for off in range(0, len(traces), chunk)]
-
-    def one(item):
-        off, part = item
-        tv = tlc.validate_traces(module, module + "_run.cfg", part, timeout=timeout, extra_files=extra, chunk=len(part) + 1)
+    out = {"accepted": 0, "rejected": [], "drift": [], "states": 0, "generated": 0, "cmd": "", "wall_s": 0.0}
+    for off in range(0, len(traces), chunk):
+        part = traces[off:off + chunk]
+        tv = _retry(lambda: tlc.validate_traces(module, module + "_run.cfg", part, timeout=timeout, extra_files=extra, chunk=len(part) + 1))
         for rj in tv["rejected"]:
             rj["index"] += off
+            rj.pop("trace", None)
         for d in tv["drift"]:
             d["index"] += off
-        return tv
-
-    with ThreadPoolExecutor(max_workers=max(1, min(procs(), len(chunks)))) as ex:
-        parts = list(ex.map(one, chunks))
-    out = {"accepted": 0, "rejected": [], "drift": [], "states": 0, "generated": 0, "cmd": "", "wall_s": 0.0}
-    for tv in parts:
         out["accepted"] += tv["accepted"]
         out["rejected"] += tv["rejected"]
         out["drift"] += tv["drift"]
         out["states"] += tv["states"]
         out["generated"] += tv["generated"]
         out["cmd"] = tv["cmd"]
-        out["wall_s"] = max(out["wall_s"], tv["wall_s"])
+        out["wall_s"] += tv["wall_s"]
     return out
 
 
-def report(chk, runs, tv):
-    for rj in tv["rejected"]:
-        r = runs[rj["index"]]
-        key = "%s|%s" % (rj["clause"], case_key(r))
-        case = {"tree": r["init"]["tree"], "ctx": r["init"]["ctx"], "py": r["init"]["py"], "fam": r["init"].get("fam", ""),
-                "var": r["init"].get("var", 0), "kind": r["init"].get("kind", "direct"), "template": r["text"]}
-        chk.violation(key, rj["clause"], case, {"final": {k: v for k, v in r["final"].items() if k != "toks"},
-                                                "events": r["events"][:200], "rejected_at_event": rj["at"]})
-    seen = set()
+def _slim(r):
+    return {"text": r["text"], "init": {k: r["init"][k] for k in ("tree", "ctx", "py", "fam", "var", "kind")},
+            "final": {k: v for k, v in r["final"].items() if k != "toks"}, "events": r["events"][:200]}
+
+
+def pipeline(job):
+    from harness import c17_tal
+    res, cases, contexts = model_check_part(job)
+    label = "%s[%s/%s %d/%d]" % (job["module"], "+".join(job["fams"]), job["ctx"], job["part"], job["nparts"])
+    out = {"label": label, "states": res["distinct"], "generated": res["generated"], "mc_cmd": res["cmd"], "mc_wall": res["wall_s"],
+           "inv": [(label, res["inv_violations"], res["out"][-3000:])] if res["inv_violations"] else []}
+    random.Random(job["seed"]).shuffle(cases)
+    consts = job["consts"]
+    runs = [c17_tal.run_case(c, contexts, consts, want_tokens=job["want_tokens"], second=c.get("fam") == "doc") for c in cases]
+    extra = job.get("extra_runs")
+    if extra:
+        runs += extra(cases, consts)
+    tv = validate(job["trace_module"], job["trace_spec"], runs, contexts, job["consts_text"])
+    out.update(
+        n_cases=len(runs), n_events=sum(len(r["events"]) for r in runs), opcodes=sorted({e[1] for r in runs for e in r["events"]}),
+        accepted=tv["accepted"], trace_states=tv["states"], trace_cmd=tv["cmd"], trace_wall=tv["wall_s"],
+        rejected=[{"clause": rj["clause"], "at": rj["at"], "run": _slim(runs[rj["index"]])} for rj in tv["rejected"]],
+        drift=[{"what": d["what"], "at": d["at"], "template": runs[d["index"]]["text"][:300]} for d in tv["drift"][:50]],
+        n_drift=len({d["index"] for d in tv["drift"]}),
+        samples=[{"template": r["text"], "ctx": r["init"]["ctx"]["id"], "doc": r["final"]["doc"],
+                  "opcodes": [e[1] for e in r["events"]][:40]} for r in runs[:2]],
+        families=sorted({c["fam"] for c in cases}), contexts=sorted(contexts.keys()))
+    measure = job.get("measure")
+    if measure:
+        out["measure"] = measure(runs, consts)
+    return out
+
+
+def measure17(runs, consts):
+    """distinct non-trivial cases of C17 (as hashes, united by the parent)"""
+    out = set()
+    for r in runs:
+        if r["final"]["doc"] and any(e[1] not in (0, consts["TAL_OUTPUT"]) for e in r["events"]):
+            out.add(hashlib.sha1((r["text"] + "|" + r["init"]["ctx"]["id"]).encode()).digest()[:8])
+    return {"nontrivial": out}
+
+
+def run_parts(jobs):
+    """all parts, biggest first, in forked worker processes; results in job order"""
+    import multiprocessing as mp
+    order = sorted(range(len(jobs)), key=lambda i: -jobs[i]["nparts"])
+    n = max(1, min(procs(), len(jobs)))
+    if len(jobs) == 1:
+        return [pipeline(jobs[0])]
+    ctx = mp.get_context("fork")
+    with ctx.Pool(n, maxtasksperchild=1) as pool:
+        res = pool.map(pipeline, [jobs[i] for i in order], chunksize=1)
+    out = [None] * len(jobs)
+    for i, r in zip(order, res):
+        out[i] = r
+    return out
+
+
+def collect(chk, results):
+    """verdicts and totals from the part summaries"""
+    tot = {"states": 0, "generated": 0, "cases": 0, "events": 0, "accepted": 0, "rejected": 0, "trace_states": 0,
+           "opcodes": set(), "mc_cmd": "", "trace_cmd": "", "mc_wall": 0.0, "trace_wall": 0.0, "samples": [], "families": set(),
+           "n_drift": 0}
     drift = []
-    for d in tv["drift"]:
-        if d["index"] in seen:
-            continue
-        seen.add(d["index"])
-        drift.append({"what": d["what"], "at": d["at"], "template": runs[d["index"]]["text"][:300]})
-    chk.note_drift(drift)
+    for r in results:
+        for k, src in (("states", "states"), ("generated", "generated"), ("cases", "n_cases"), ("events", "n_events"),
+                       ("accepted", "accepted"), ("trace_states", "trace_states"), ("n_drift", "n_drift")):
+            tot[k] += r[src]
+        tot["rejected"] += len(r["rejected"])
+        tot["opcodes"] |= set(r["opcodes"])
+        tot["families"] |= set(r["families"])
+        tot["mc_cmd"], tot["trace_cmd"] = r["mc_cmd"], r["trace_cmd"] or tot["trace_cmd"]
+        tot["mc_wall"] += r["mc_wall"]
+        tot["trace_wall"] += r["trace_wall"]
+        if len(tot["samples"]) < 4:
+            tot["samples"] += r["samples"][:1]
+        for label, names, tail in r["inv"]:
+            chk.model_violation(label, names, tail)
+        for rj in r["rejected"]:
+            run = rj["run"]
+            key = "%s|%s" % (rj["clause"], case_key(run))
+            i = run["init"]
+            case = {"tree": i["tree"], "ctx": i["ctx"], "py": i["py"], "fam": i["fam"], "var": i["var"], "kind": i["kind"],
+                    "template": run["text"]}
+            chk.violation(key, rj["clause"], case, {"final": run["final"], "events": run["events"], "rejected_at_event": rj["at"]})
+        drift += r["drift"]
+    chk.note_drift(drift[:200])
+    return tot
 
 
 def load_replay(replay):
     with open(replay) as fp:
-        rp = json.load(fp)
-    c = rp["case"]
-    return [{"fam": c.get("fam", ""), "tree": c["tree"], "ctx": c["ctx"], "py": c["py"], "var": c.get("var", 0)}]
+        c = json.load(fp)["case"]
+    return {"fam": c.get("fam", ""), "tree": c["tree"], "ctx": c["ctx"], "py": c["py"], "var": c.get("var", 0), "kind": c.get("kind", "direct")}
+
+
+def common_job(chk, consts_text, consts, **kw):
+    job = dict(consts_text=consts_text, consts=consts, seed=chk.seed, quick=chk.tier == "quick",
+               known_rom=known_flag(chk, "RepeatOverMapping"), known_rte=known_flag(chk, "RawTextEscaped"),
+               module="MC_C17", invs=INVS17, trace_module="TraceC17", trace_spec="TSpec", want_tokens=False, esclen=2)
+    job.update(kw)
+    return job
+
+
+def replay_result(case, contexts_job, trace_module, trace_spec, want_tokens=False, runs=None):
+    """re-run exactly one stored case (the small model run only supplies the named contexts) -> a part summary"""
+    from harness import c17_tal
+    res, _cases, contexts = model_check_part(contexts_job)
+    if runs is None:
+        runs = [c17_tal.run_case(case, contexts, contexts_job["consts"], want_tokens=want_tokens, second=case.get("fam") == "doc")]
+    tv = validate(trace_module, trace_spec, runs, contexts, contexts_job["consts_text"])
+    return {"label": "replay", "states": res["distinct"], "generated": res["generated"], "mc_cmd": res["cmd"], "mc_wall": res["wall_s"],
+            "inv": [], "n_cases": 1, "n_events": len(runs[0]["events"]), "opcodes": sorted({e[1] for e in runs[0]["events"]}),
+            "accepted": tv["accepted"], "trace_states": tv["states"], "trace_cmd": tv["cmd"], "trace_wall": tv["wall_s"],
+            "rejected": [{"clause": rj["clause"], "at": rj["at"], "run": _slim(runs[0])} for rj in tv["rejected"]],
+            "drift": [{"what": d["what"], "at": d["at"], "template": runs[0]["text"][:300]} for d in tv["drift"]],
+            "n_drift": len(tv["drift"][:1]), "samples": [], "families": [case["fam"]], "contexts": [], "runs": runs}
 
 
 def selftest():
@@ -212,7 +271,7 @@ def selftest():
              "tal": [{"c": "repeat", "name": "x", "e": P("xs"), "items": [], "flag": False},
                      {"c": "content", "name": "", "e": P("x"), "items": [], "flag": False}]}]
     V = c17_tal.V
-    case = {"fam": "selftest", "tree": tree, "py": False,
+    case = {"fam": "selftest", "tree": tree, "py": False, "var": 0,
             "ctx": {"id": "none", "ents": [V("ent", s="xs", q=[V("seq", q=[V("str", s="a<"), V("str", s="b")])])]}}
     good = c17_tal.run_case(case, {}, consts)
     bad_doc = json.loads(json.dumps(good))
@@ -233,47 +292,49 @@ def main(chk, replay=None):
     from harness import c17_tal
     t = TIERS[chk.tier]
     consts_text, consts, bound = c17_tal.import_constants()
+    common = common_job(chk, consts_text, consts, measure=measure17)
     if replay:
-        cases, contexts = load_replay(replay), {}
-        _c, contexts, tot = model_check(chk, [(["void"], 1)], t["ctxs"], INVS17, consts_text)
+        case = load_replay(replay)
+        cjob = dict(common, fams=["void"], ctx=case["ctx"]["id"] if case["ctx"]["id"] != "none" else "A", nparts=1, part=0)
+        r = replay_result(case, cjob, "TraceC17", "TSpec")
+        r["measure"] = measure17(r.pop("runs"), consts)
+        results = [r]
     else:
-        cases, contexts, tot = model_check(chk, t["parts"], t["ctxs"], INVS17, consts_text)
-    random.Random(chk.seed).shuffle(cases)
-    runs = run_cases(cases, contexts, consts)
-    nev = sum(len(r["events"]) for r in runs)
-    if runs and nev == 0:
-        raise core.MachineryError("C17: the tracing interpreter logged no opcode at all: interpreter= binding not exercised")
-    # every opcode handler must have been exercised (the trace spec replays each event as the TALVM action of that opcode)
-    need = [consts[n] for n in c17_tal.OPNAMES if n not in ("TAL_REPLACE", "TAL_NOOP", "METAL_FILL_SLOT", "METAL_DEFINE_MACRO")] + [0]
-    seen_ops = {e[1] for r in runs for e in r["events"]}
-    if not replay and [o for o in need if o not in seen_ops]:
-        raise core.MachineryError("C17: opcode handlers never exercised: %s" % [o for o in need if o not in seen_ops])
-    tv = validate("TraceC17", "TSpec", runs, contexts, consts_text)
-    report(chk, runs, tv)
-    nontrivial = len({r["text"] + "|" + r["init"]["ctx"]["id"] for r in runs
-                      if any(e[1] not in (0, consts["TAL_OUTPUT"]) for e in r["events"]) and r["final"]["doc"]})
-    opcodes = sorted({e[1] for r in runs for e in r["events"]})
+        results = run_parts(make_jobs(t["parts"], t["ctxs"], **common))
+    tot = collect(chk, results)
+    if not replay:
+        if tot["events"] == 0:
+            raise core.MachineryError("C17: the tracing interpreter logged no opcode at all: interpreter= binding not exercised")
+        # every opcode handler must have been exercised (the trace spec replays each event as the TALVM action of that opcode)
+        need = [consts[n] for n in c17_tal.OPNAMES if n not in ("TAL_REPLACE", "TAL_NOOP", "METAL_FILL_SLOT", "METAL_DEFINE_MACRO")] + [0]
+        idle = [o for o in need if o not in tot["opcodes"]]
+        if idle and not chk.violations:
+            raise core.MachineryError("C17: opcode handlers never exercised: %s" % idle)
+    nontrivial = set()
+    for r in results:
+        nontrivial |= r.get("measure", {}).get("nontrivial", set())
     cov = {
-        "states": tot["distinct"], "transitions": tot["generated"], "exhaustive": True,
-        "traces_validated_against_impl": tv["accepted"], "traces_rejected": len(tv["rejected"]),
-        "evaluations": len(runs), "distinct_nontrivial": nontrivial,
-        "rule": "cases = every (template tree, context) TLC enumerated in MC_C17 for the family parts %s x contexts %s "
+        "states": tot["states"], "transitions": tot["generated"], "exhaustive": True,
+        "traces_validated_against_impl": tot["accepted"], "traces_rejected": tot["rejected"],
+        "evaluations": tot["cases"], "distinct_nontrivial": len(nontrivial),
+        "rule": "cases = every (template tree, context) TLC enumerated in MC_C17 for the family groups %s x contexts %s "
                 "(the set written by the model's POSTCONDITION); non-trivial = distinct (template text, context) whose real "
                 "run executed at least one TAL/METAL opcode other than OUTPUT and produced a non-empty document"
                 % (t["parts"], t["ctxs"]),
-        "samples": [{"template": r["text"], "ctx": r["init"]["ctx"]["id"], "doc": r["final"]["doc"], "opcodes": [e[1] for e in r["events"]][:40]}
-                    for r in runs[:3]],
-        "checker_cmd": tot["cmd"] + " ; " + tv["cmd"],
-        "opcode_events": nev, "opcodes_seen": opcodes, "trace_states": tv["states"],
+        "samples": tot["samples"],
+        "checker_cmd": tot["mc_cmd"] + " ; " + tot["trace_cmd"],
+        "opcode_events": tot["events"], "opcodes_seen": sorted(tot["opcodes"]), "trace_states": tot["trace_states"],
+        "model_drift": tot["n_drift"],
         "constants_bound": bound, "constants": {k: v for k, v in consts.items() if k != "VoidTags"},
-        "families": sorted({c["fam"] for c in cases}),
-        "model_wall_s": tot["wall"], "trace_wall_s": tv["wall_s"],
+        "families": sorted(tot["families"]), "parts": len(results),
+        "model_cpu_s": round(tot["mc_wall"], 1), "trace_cpu_s": round(tot["trace_wall"], 1),
         "bindings": ["B1 opcode numbers + HTML_FORBIDDEN_ENDTAG imported into the TLC cfg", "B2 every TLC case compiled and expanded by the real simpleTAL",
                      "B3 TraceC17 (opcode trace vs TALVM = drift; document vs TALSem, program vs WellFormedProg = property)"],
     }
     return chk.finish(cov, [
         "reference semantics = DESIGN.md Appendix E.4 (spec/TALSem.tla); where E.4 is silent the grammar does not go "
-        "(other commands on an element whose use-macro is nothing, alternation under exists:, prefixed non-final alternatives)",
+        "(other commands on an element whose use-macro is nothing, alternation under exists:, prefixed non-final alternatives, "
+        "the `length` of an iterator repeat)",
         "gamma renders trees to HTML template text (harness/c17_tal.py); sequences/mappings/iterables/callables of the context "
         "are Python objects with a fixed __str__ so that str() of every value is defined",
         "the document is compared raw and, alternatively, re-serialised from an independent tokenizer (escape style and "
